@@ -327,11 +327,24 @@ func RunLifecycle(t *testing.T, sc *LScenario, emit func(*LifeObs)) {
 		// reach the phase
 		o.ReachedPhase = true
 		switch sc.Phase {
-		case "logged", "logout":
+		case "logged", "logout", "relogged":
 			conn.in <- inEvent{data: inb("logon")}
 			quiesce()
 			for i := 0; i < 100 && !s.IsLogged(); i++ {
 				time.Sleep(5 * time.Millisecond)
+			}
+			if sc.Phase == "relogged" && s.IsLogged() {
+				// the second lifetime on the same session object: the peer logs out (we answer) and logs on again
+				conn.in <- inEvent{data: inb("logout")}
+				quiesce()
+				for i := 0; i < 100 && s.IsLogged(); i++ {
+					time.Sleep(5 * time.Millisecond)
+				}
+				conn.in <- inEvent{data: inb("logon")}
+				quiesce()
+				for i := 0; i < 100 && !s.IsLogged(); i++ {
+					time.Sleep(5 * time.Millisecond)
+				}
 			}
 			if !s.IsLogged() {
 				o.ReachedPhase = false
@@ -428,7 +441,7 @@ func RunLifecycle(t *testing.T, sc *LScenario, emit func(*LifeObs)) {
 		// bounded settling time: the write deadline plus a margin; two inbound timeouts for the silent peer
 		if sc.Cause == "timer_disconnect" {
 			time.Sleep(5200 * time.Millisecond)
-		} else if sc.Phase == "logged" || sc.Phase == "logout" {
+		} else if sc.Phase == "logged" || sc.Phase == "logout" || sc.Phase == "relogged" {
 			// the timer loops look at their context once per timeout (1 s + 1 s tolerance + poll)
 			time.Sleep(2600 * time.Millisecond)
 		} else {
